@@ -1,6 +1,7 @@
 pub mod common;
 pub mod c01;
 pub mod c02;
+pub mod c08;
 pub mod c12;
 pub mod c13;
 pub mod c16;
@@ -11,6 +12,7 @@ pub fn dispatch(id: &str, o: &Opts) -> i32 {
     match id {
         "C01" => c01::main(o),
         "C02" => c02::main(o),
+        "C08" => c08::main(o),
         "C12" => c12::main(o),
         "C13" => c13::main(o),
         "C16" => c16::main(o),
